@@ -172,7 +172,9 @@ def catalog(n: int, in_fn: bool, at_top: bool):
     A("list remove", "nums.remove(1)")
     A("len(list)", f"ln{n} = len(nums)")
     A("list index", f"li{n} = nums[0]")
-    A("list setitem", "nums[0] = v")
+    # ("list setitem", "nums[0] = v") left the catalog: a subscript assignment never reached the firmware (it was dropped
+    # silently - finding F-C07-drop-subscript-attr-assign) and is REJECTED since "fix: reject statements the transpiler
+    # cannot translate instead of dropping them"; one rejected statement would hide the rest of a sequence
     A("call assign", f"ca{n} = add2(v, 2)")
     A("for range", "for i in range(3):", "    led.toggle()")
     A("for range promote", "for j in range(2):", f"    fp{n} = j + v", f"mon.write(fp{n})")
